@@ -12,7 +12,9 @@ def run(fw):
     base = ['VSTD_STR_CAP=23', 'VSTD_VEC_CAP=4']
     jobs = [('h_clone_model', g, []) for g in GROUPS] + [('h_clone_independent', g, []) for g in (2, 3)] + [('h_clone_parts', 0, [])]
     if fw.tier == 'thorough':
-        jobs += [('h_clone_model', 0, []), ('h_clone_model', 3, ['WITH_EQUIV'])]
+        # the equivalence transfer of Model::clone has had no verdict within 25 min on any skeleton tried (DESIGN 11.5): one
+        # minimal best-effort attempt is kept so that a future, faster encoding shows up as a discharged obligation
+        jobs += [('h_clone_model', 0, []), ('h_clone_equivalence', 0, ['EQUIV_ATTEMPT'])]
 
     def one(j):
         root, g, extra = j
